@@ -691,7 +691,6 @@ def _d_ipv4(d, off, end, ctx):
   tot = _u16(b, off + 2)
   if not ctx.get("embedded"):
     d.check("ipv4.totlen", off + 2, 2, end - off)
-  d.check("ipv4.ihl", off, 1, 0x40 | ihl)
   hdr = bytearray(b[off:off + ihl * 4])
   hdr[10:12] = b"\0\0"
   d.check("ipv4.csum", off + 10, 2, R.checksum(hdr))
@@ -1190,6 +1189,25 @@ def _d_rip(d, off, end, ctx):
     k += 1
   if o != end:
     d.checks.append({"name": "rip.entries", "off": o, "size": end - o, "got": end - o, "want": 0})
+
+
+_PROTO_NAME = {"echo": "icmp.echo", "unreach": "icmp.unreach", "timex": "icmp.timex", "echo6": "icmp6.echo",
+               "toobig": "icmp6.err2", "timex6": "icmp6.err3", "unreach6": "icmp6.err1", "nd_rs": "nd.rs",
+               "nd_ra": "nd.ra", "nd_ns": "nd.ns", "nd_na": "nd.na", "igmp3": "igmp"}
+
+
+def expected_protos(spec):
+  """the dissector's layer names for a well-formed frame built from spec"""
+  out = []
+  for rec in spec:
+    t = rec["t"]
+    if t == "raw":
+      continue
+    out.append(_PROTO_NAME.get(t, t))
+    if t == "ipv6":
+      for e in rec.get("ext", []):
+        out.append("ipv6.frag" if e["k"] == 44 else "ipv6.ext%d" % e["k"])
+  return out
 
 
 def dissect(frame, padded=False):
